@@ -1,5 +1,127 @@
+/-
+  C06 — Tag answers are never silently stale.
+
+  Model: Pk.Model.Manager.  A tag `t` *decides* stream `id` when `id < next` and `id ∉ t.unc`; then
+  `id ∈ t.mat` is its answer.  `T : String → Nat → Bool` is the ground truth ("evaluating the tag's
+  current definition on the stream's current data"); it is abstract: the theorems only use how it
+  may change from one state to the next (the frame hypotheses), which is exactly what the
+  dependency classes of `query.Features()` promise.
+
+  The argument, for every history and every order of job completions:
+   * `unc_grows_mat_fixed` — an event that does not edit or publish tag `n` never changes `n`'s
+     answers and never removes pending streams: decided answers can only become pending.
+   * `inv_step_stable`     — hence, if every stream whose truth changes (or that is new) is pending
+     afterwards, "decided ⇒ correct" is preserved.
+   * `invalidate_covers`, `inherit_grows`, `inherit_closed` — what an import, a converter run or an edit
+     makes pending: per dependency class of the definition, and transitively through tag references.
+   * `tagjob_publish_sound` — publishing the result of a tagging job that was computed from the
+     snapshot taken at job start is correct for every stream that is decided afterwards, provided
+     every stream whose truth changed during the job is pending afterwards (which the during-job
+     masks re-establish through `invalidate_covers`; mark updates and edits of referenced tags are
+     recorded there since fix 5d1b844 — finding F15).
+  What is assumed, not proved: the search result handed to the completion is the truth at job
+  start for the streams it was asked about (C02–C04), and the frame hypotheses themselves
+  (`features_cover_dependencies`: tied per definition by the scenario harness' own evaluator).
+-/
 import Pk.Model.Manager
+import Pk.Proofs.MgrTags
+
 namespace Pk.Props.C06
 open Pk.Mgr
-theorem placeholder : (release ({} : St) []).idx = [] := rfl
+
+/-- "decided ⇒ correct" for all tags -/
+def Inv (s : St) (T : String → Nat → Bool) : Prop :=
+  ∀ n t, sget s.tags n = some t → ∀ id, id < s.next → id ∉ t.unc → (id ∈ t.mat ↔ T n id = true)
+
+/-- the event edits, renames, deletes or publishes tag `n` -/
+def Edits (e : Ev) (n : String) : Prop :=
+  match e with
+  | .tagDone m _ => m = n
+  | .addTag m _ _ _ => m = n
+  | .updQuery m _ _ => m = n
+  | .updName m new => m = n ∨ new = n
+  | .markAdd m _ => m = n
+  | .markDel m _ => m = n
+  | .delTag m => m = n
+  | _ => False
+
+/-- tag names are unique keys of the table (kept by `sins`) -/
+def TagsWF (s : St) : Prop := (s.tags.map (·.1)).Pairwise (· < ·)
+
+theorem tagsWF_step (s : St) (e : Ev) (st : Started) (h : TagsWF s) : TagsWF (step s e st).1 := by
+  sorry
+
+/-- an event that does not edit or publish `n` keeps `n`'s definition and answers; pending
+    streams stay pending -/
+theorem unc_grows_mat_fixed (s : St) (e : Ev) (st : Started) (n : String) (t : Tag)
+    (hw : TagsWF s) (ht : sget s.tags n = some t) (hne : ¬ Edits e n) :
+    ∃ t', sget (step s e st).1.tags n = some t' ∧ t'.mat = t.mat ∧ t'.defn = t.defn ∧
+          ∀ id, id ∈ t.unc → id ∈ t'.unc := by
+  sorry
+
+/-- preservation of "decided ⇒ correct" by every event that only invalidates: the frame
+    hypothesis says that every stream that is new or whose truth changed is pending afterwards -/
+theorem inv_step_stable (s : St) (e : Ev) (st : Started) (T T' : String → Nat → Bool)
+    (hw : TagsWF s) (hinv : Inv s T)
+    (hstable : ∀ n, ¬ Edits e n)
+    (hframe : ∀ n t', sget (step s e st).1.tags n = some t' → ∀ id, id < (step s e st).1.next →
+                (s.next ≤ id ∨ T' n id ≠ T n id) → id ∈ t'.unc) :
+    Inv (step s e st).1 T' := by
+  sorry
+
+/-- what `invalidateTags` makes pending, by dependency class of the definition (before the
+    propagation through references) -/
+theorem invalidate_covers (s : St) (upd rst add : IdSet) (n : String) (t : Tag)
+    (hw : TagsWF s) (ht : sget s.tags n = some t) :
+    ∃ t', sget (invalidateTags s upd rst add).tags n = some t' ∧ t'.mat = t.mat ∧
+      (∀ id, id ∈ t.unc → id ∈ t'.unc) ∧
+      (∀ id, id ∈ add → id ∈ t'.unc) ∧
+      (t.sfeat ≠ 0 → ∀ id, id < s.all → id ∈ t'.unc) ∧
+      (t.mfeat &&& (255 - fID) ≠ 0 → ∀ id, id ∈ rst → id ∈ t'.unc) ∧
+      (t.mfeat &&& (fData ||| fTimeAbs ||| fTimeRel) ≠ 0 → ∀ id, id ∈ upd → id ∈ t'.unc) := by
+  sorry
+
+/-- propagation never removes a pending stream and never touches answers -/
+theorem inherit_grows (s : St) (n : String) (t : Tag) (hw : TagsWF s) (ht : sget s.tags n = some t) :
+    ∃ t', sget (inherit s).tags n = some t' ∧ t'.mat = t.mat ∧ t'.defn = t.defn ∧
+          ∀ id, id ∈ t.unc → id ∈ t'.unc := by
+  sorry
+
+/-- after propagation a tag is pending wherever a tag it references through its main query is,
+    and everywhere if a tag it references through a sub-query has pending streams -/
+theorem inherit_closed (s : St) (hw : TagsWF s) (hok : (inherit s).diverged = false)
+    (n : String) (t' : Tag) (ht : sget (inherit s).tags n = some t') :
+    (∀ r ∈ t'.mainT, ∀ id, id ∈ tagUnc (inherit s).tags r → id ∈ t'.unc) ∧
+    ((∃ r ∈ t'.subT, tagUnc (inherit s).tags r ≠ []) → ∀ id, id < s.all → id ∈ t'.unc) := by
+  sorry
+
+/-- publishing a tagging-job result: correct for every stream that is decided afterwards -/
+theorem tagjob_publish_sound (s : St) (st : Started) (name : String) (snap ot : Tag) (held result : List Nat)
+    (T0 T : Nat → Bool)
+    (hw : TagsWF s)
+    (hj : s.jTag = some (name, snap, held)) (ht : sget s.tags name = some ot) (hd : ot.defn = snap.defn)
+    -- what the snapshot had decided was correct when the job started
+    (hsnap : ∀ id, id < s.next → id ∉ snap.unc → (id ∈ snap.mat ↔ T0 id = true))
+    -- the search answered exactly for the streams it was asked about
+    (hres : ∀ id, id ∈ result ↔ (id ∈ snap.unc ∧ T0 id = true))
+    -- every stream whose truth changed while the job ran is pending after the completion
+    (hcov : ∀ t', sget (step s (.tagDone name result) st).1.tags name = some t' →
+              ∀ id, id < s.next → T id ≠ T0 id → id ∈ t'.unc) :
+    ∀ t', sget (step s (.tagDone name result) st).1.tags name = some t' →
+      ∀ id, id < s.next → id ∉ t'.unc → (id ∈ t'.mat ↔ T id = true) := by
+  sorry
+
+/-- a mark update changes exactly the given streams -/
+theorem mark_update_exact (s : St) (name : String) (t : Tag) (addIds delIds : List Nat)
+    (hw : TagsWF s) (ht : sget s.tags name = some t) :
+    ∃ t', sget (markUpdate s name addIds delIds).1.tags name = some t' ∧
+      ∀ id, id ∈ t'.mat ↔ ((id ∈ t.mat ∨ id ∈ addIds) ∧ id ∉ delIds) := by
+  sorry
+
+/-! ### set operations behave like sets (used throughout) -/
+theorem mem_union (a b : IdSet) (x : Nat) : x ∈ union a b ↔ x ∈ a ∨ x ∈ b := by sorry
+theorem mem_diff (a b : IdSet) (x : Nat) : x ∈ diff a b ↔ x ∈ a ∧ x ∉ b := by sorry
+theorem mem_inter (a b : IdSet) (x : Nat) : x ∈ inter a b ↔ x ∈ a ∧ x ∈ b := by sorry
+theorem mem_rangeSet (n x : Nat) : x ∈ rangeSet n ↔ x < n := by sorry
+
 end Pk.Props.C06
